@@ -249,7 +249,12 @@ func NewRouter(b backend.Backend, readOnly bool) chi.Router {
 
 // Serve sends one request through the router and returns the recorder.
 func Serve(router http.Handler, method, target string, header map[string]string, body string) *httptest.ResponseRecorder {
-	req := httptest.NewRequest("GET", "http://ledger.test/", strings.NewReader(body))
+	return ServeCtx(context.Background(), router, method, target, header, body)
+}
+
+// ServeCtx is Serve with a caller-supplied context (e.g. one that carries a hookctx target).
+func ServeCtx(ctx context.Context, router http.Handler, method, target string, header map[string]string, body string) *httptest.ResponseRecorder {
+	req := httptest.NewRequest("GET", "http://ledger.test/", strings.NewReader(body)).WithContext(ctx)
 	req.Method = method
 	u, err := req.URL.Parse(target)
 	if err == nil {
